@@ -412,18 +412,18 @@ def _(c):
     ghost = {"types": {"self.state.network_info.key_table": T.any_list(), "self.state.network_info.children": T.any_list(),
                        "self.state.network_info.nwk_addresses": AnyMap}}
     # "link-key table entries": every key the accessor yields is appended, in order, nothing else
-    c.loop(0, ghost=ghost,
+    c.loop(0, ghost=ghost, where="read_link_keys",
            at_entry=[("starts_empty", lambda self: self.state.network_info.key_table == [])],
            each=[("yielded_key_appended", lambda self, link_key: self.state.network_info.key_table
                   == old(self.state.network_info.key_table) + [link_key])])
     # "the child table": every child is recorded with its own address pair
-    c.loop(1, ghost=ghost,
+    c.loop(1, ghost=ghost, where="read_child_data",
            at_entry=[("starts_empty", lambda self: self.state.network_info.children == [] and self.state.network_info.nwk_addresses == {})],
            each=[("child_recorded_with_its_addresses",
                   lambda self, nwk, eui64: self.state.network_info.children == old(self.state.network_info.children) + [eui64]
                   and self.state.network_info.nwk_addresses[eui64] == nwk
                   and unchanged_except(self.state.network_info.nwk_addresses, old(self.state.network_info.nwk_addresses), [eui64]))])
-    c.loop(2, ghost=ghost,
+    c.loop(2, ghost=ghost, where="read_address_table",
            each=[("address_recorded",
                   lambda self, nwk, eui64: self.state.network_info.nwk_addresses[eui64] == nwk
                   and unchanged_except(self.state.network_info.nwk_addresses, old(self.state.network_info.nwk_addresses), [eui64])
